@@ -47,6 +47,7 @@ def generate(rng, tier, index):
     n_nodes = rng.choice([2, 3, 4, 5, 6, 8]) if tier == "quick" else rng.choice([2, 3, 4, 5, 6, 8, 10, 14])
     triples = gen.gen_graph(rng, n_nodes=n_nodes, n_classes=rng.randint(1, 3), n_props=rng.randint(1, 4),
                             kinds=("node", "str", "int", "iri", "iri2"), density=rng.choice([0.4, 0.6, 0.8]),
+                            prop_namespaces=rng.choice([(gen.EX,), (gen.EX, gen.EX_DEEP, gen.EX_DEEPER, gen.OTHER)]),
                             twins=0,    # a plain string that looks like a number is outside C15's domain
                             same_local_classes=0.12)
     tp = gen.CUSTOM_TYPE if rng.random() < 0.12 else gen.RDF_TYPE
@@ -66,6 +67,8 @@ def generate(rng, tier, index):
         options["instances_cap"] = rng.randint(1, max(sizes) + 1)
     if rng.random() < 0.15:
         options["detect_minimal_iri"] = True
+    if rng.random() < 0.12:
+        options["namespaces_to_ignore"] = rng.choice([[gen.EX], [gen.EX_DEEP], [gen.EX, gen.OTHER], [gen.RDF_NS]])
     cache_primary = rng.random() < 0.6      # cache setting of the faulted run
     r = rng.random()
     config = "fault_free" if r < 0.3 else "transient" if r < 0.6 else "exhaust" if r < 0.72 else "outage" if r < 0.88 else "nonretryable"
@@ -207,8 +210,9 @@ def execute(scen, scratch):
     with sim:
         try:
             # ---- fault-free twins, cache on and off
-            e_on, ep_on = _endpoint_run(sim, scen, triples, cache=True, cap_steps=5000)
-            e_off, ep_off = _endpoint_run(sim, scen, triples, cache=False, cap_steps=5000)
+            cap0 = scen.get("step_cap", 5000)
+            e_on, ep_on = _endpoint_run(sim, scen, triples, cache=True, cap_steps=cap0)
+            e_off, ep_off = _endpoint_run(sim, scen, triples, cache=False, cap_steps=cap0)
             runs += 2
             verdicts += [("on", e_on.brief(), ep_on.logical), ("off", e_off.brief(), ep_off.logical)]
             # ---- oracle 1: equivalence with the local fresh model
@@ -320,6 +324,8 @@ def _scale_graph(spec):
         for j in range(spec["values"]):
             triples.append((a, gen.iri(gen.EX + "p"), gen.lit(str(i * spec["values"] + j), gen.XSD + "integer")))
         triples.append((gen.iri(gen.EX + "b%d" % i), gen.iri(gen.EX + "employs"), a))
+        if spec.get("late") and i >= spec["instances"] - spec["late"]:
+            triples.append((a, gen.iri(gen.EX + "late"), gen.lit("x", gen.XSD + "string")))
     return triples
 
 
@@ -333,6 +339,11 @@ def extra_scenarios(tier, base):
             "target": {"target_classes": [gen.EX + "A"]}, "options": {"instances_report_mode": "mixed"},
             "ns": dict(gen.BASE_NS), "row_seed": 11, "cache_primary": kind == "internal",
             "faults": [{"where": "first_po", "offset": 0, "burst": 2, "kind": kind}]}))
+    # a class of 2600 instances: selector answers far beyond any page size an endpoint client might use
+    out.append(("manyinstances-2600", {
+        "config": "fault_free", "scale": {"instances": 2600, "values": 1, "late": 600}, "graph": [], "step_cap": 60000,
+        "target": {"target_classes": [gen.EX + "A"]}, "options": {"instances_report_mode": "mixed"},
+        "ns": dict(gen.BASE_NS), "row_seed": 5, "cache_primary": True, "faults": []}))
     for (ni, nv) in ([(40, 60)] if tier == "quick" else [(40, 60), (120, 300), (300, 420)]):
         out.append(("scale-%dx%d" % (ni, nv), {
             "config": "fault_free", "scale": {"instances": ni, "values": nv}, "graph": [],
